@@ -258,7 +258,9 @@ def run(chk, tier):
     st6 = St()
     args6 = [e6.sym_ref(st6, fd['locals'][i]['name'] or 'a%d' % i) for i in range(1, fd['argc'] + 1)]
     e6.run(fd, args6, st6)
-    sites = [(k_, d_, lst) for (p_, k_, d_, b_), lst in e6.evals.items() if p_ == fd['path'] and k_ in ('slice-index', 'BoundsCheck', 'copy_from_slice', 'Overflow:Sub', 'Overflow:Add')]
+    # the sites of the function and of the private Ipv6 helpers it is split into (inlined by the engine, evaluated with the caller's values)
+    own6 = {fd['path']} | {p_ for p_, f_ in prog.fns.items() if f_.get('impl_adt') == fd.get('impl_adt') and fd.get('impl_adt') and _takes_buffer(f_, fd)}
+    sites = [(k_, d_, lst) for (p_, k_, d_, b_), lst in e6.evals.items() if p_ in own6 and k_ in ('slice-index', 'BoundsCheck', 'copy_from_slice', 'Overflow:Sub', 'Overflow:Add')]
     bad6 = [(k_, d_, [x for x in lst if not x[1]][0]) for k_, d_, lst in sites if any(not x[1] for x in lst)]
     n_slices = len([1 for k_, d_, lst in sites if k_ == 'slice-index'])
     if n_slices >= 2 and not bad6:
@@ -296,3 +298,10 @@ def run(chk, tier):
         chk.fail('R7', 'separation:dublin-ipv6', fn_loc(fa),
                  'Dublin/IPv6: max_sequence() = initial + BUFFER_SIZE, so every wrap re-opens the numbers of the immediately preceding round '
                  '(window after the wrap = [initial, initial+%d) ⊇ previous round)' % BS, key='R7|separation|dublin-ipv6')
+
+
+def _takes_buffer(helper, owner):
+    """a helper that is handed one of the owner's stack buffers (`&mut [u8; N]` of the same N): its slicing sites belong to the owner's buffer discipline"""
+    arrays = {m for l in owner['locals'] for m in re.findall(r'\[u8; \d+\]', l['ty'])}
+    return any(a in l['ty'] for a in arrays for l in helper['locals'][1:helper.get('argc', 0) + 1])
+
